@@ -92,7 +92,7 @@ pub fn run(env: &Env) -> Report {
         let mut t = env.trace(&format!("c15.{}", ui));
         register_layouts(&mut t, env, &lay);
         // 16 settings of {traditional joining, smart quotes, English, ANSI}; the other helpers as in the defaults
-        let mk = |b: u32| { let mut o = Opts::none(); o.fixed_suggestion = true; o.vowel = true; o.chandra = true; o.numpad = true; o.kar = b & 1 == 1; o.smart_quote = b & 2 == 2; o.english = b & 4 == 4; o.ansi = b & 8 == 8; o };
+        let mk = |b: u32| { let mut o = Opts::none(); o.fixed_suggestion = true; o.vowel = true; o.chandra = true; o.numpad = (b * 7) % 3 != 0; o.kar = b & 1 == 1; o.smart_quote = b & 2 == 2; o.english = b & 4 == 4; o.ansi = b & 8 == 8; o };
         let mut ctxs: Vec<(Opts, Sess)> = vec![];
         t.line(&format!("case c15-{}", ui));
         let xdg = env.fresh_xdg(&format!("c15-{}", ui));
@@ -118,7 +118,18 @@ pub fn run(env: &Env) -> Report {
                 }
                 true
             };
-            let ok = type_str(s, &mut t, &mut rep, lead, &mut typed) && { let _ = &keys; type_str(s, &mut t, &mut rep, word, &mut typed) } && type_str(s, &mut t, &mut rep, trail, &mut typed);
+            let mut ok = type_str(s, &mut t, &mut rep, lead, &mut typed) && { let _ = &keys; type_str(s, &mut t, &mut rep, word, &mut typed) };
+            // a key that HAS a character but no value in the layout (a number-pad key while the number-pad option is off) in the middle of
+            // the word: it composes nothing and is no part of the raw key text either — the list stays what it was
+            if ok && !s.opts.numpad && wi % 3 == 0 {
+                let ob = s.key(&mut t, 76, 0, 0);
+                let buffer = match &ob { Obs::Full { aux, .. } => aux.clone(), _ => String::new() };
+                let ctx = json!({"stream": "c15", "layout": s.layout, "opts": s.opts.bits_str(), "events": s.events});
+                let so = s.opts;
+                check_fixed_list(env, &mut rep, &so, &all_words, &buffer, &typed, false, &ob, &ctx);
+                rep.count("no-value-key-inside-word");
+            }
+            ok = ok && type_str(s, &mut t, &mut rep, trail, &mut typed);
             if !ok { untypeable += 1; }
             if rep.samples.len() < 3 { if let Obs::Full { cands, aux, .. } = &s.last { rep.sample(json!({"composed": aux, "opts": o.bits_str(), "candidates": cands})); } }
             s.finish(&mut t); s.clear_events();
@@ -182,6 +193,9 @@ pub fn check_ansi(env: &Env, rep: &mut Report, opts: &Opts, typed_raw: &str, o: 
             // never offered under ANSI: emoji, emoticon-derived, raw English
             let is_emoji = env.data.emoticons.values().any(|e| e == c) || c.chars().any(|ch| (ch as u32) >= 0x1F000 || (0x2190..=0x2BFF).contains(&(ch as u32)) || (ch as u32) == 0xFE0F);
             if is_emoji { rep.violation("C16", "emoji-offered-in-ansi", format!("candidate {:?} is an emoji", c), ctx.clone()); }
+            // a candidate is Bengali text (letters are always transliterated; digits become Bengali digits; only punctuation stays):
+            // a Latin letter in a candidate is raw typed text, whatever its position in the list
+            if c.chars().any(|ch| ch.is_ascii_alphabetic()) { rep.violation("C16", "english-offered-in-ansi", format!("candidate {:?} holds raw Latin text with ANSI on: {:?}", c, cands), ctx.clone()); }
             rep.count("ansi-candidate");
         } else {
             if p.as_deref() != Some(c.as_str()) { rep.violation("C16", "preedit-differs-without-ansi", format!("candidate {:?}: pre-edit {:?}", c, p), ctx.clone()); }
@@ -357,7 +371,7 @@ pub fn run_c17(env: &Env) -> Report {
         let earlier = if fixed { ascii_keys("ka") } else { ascii_keys("bon") };
         let nwords = if env.quick() { 6 } else { 12 };
         for wi in 0..nwords {
-            let word: String = if fixed { ["ka", "kh", "ok", "ki", "^", "k^"][wi % 6].to_string() } else { match wi % 4 { 0 => pools.word(&mut rng), 1 => rng.pick(&pools.emoji_names).clone(), 2 => ["e", "a'b", "ki\"t", ":'(", ":\"D", "", "\\", "\\"][rng.below(8)].to_string(), _ => ["ami", "e", "kor", "sob"][rng.below(4)].to_string() } };
+            let word: String = if fixed { ["ka", "kh", "ok", "", "^", "k^"][wi % 6].to_string() } else { match wi % 4 { 0 => pools.word(&mut rng), 1 => rng.pick(&pools.emoji_names).clone(), 2 => ["e", "a'b", "ki\"t", ":'(", ":\"D", "", "\\", "\\"][rng.below(8)].to_string(), _ => ["ami", "e", "kor", "sob"][rng.below(4)].to_string() } };
             if !word.chars().all(crate::code_ok) { continue; }
             for (li, lead) in wraps.iter().enumerate() {
                 for (ti, trail) in wraps.iter().enumerate() {
